@@ -49,6 +49,7 @@ def run_scanner(rec, S):
             continue
         c = arm["pat"]["v"].strip("'")
         fake = {"body": arm["body"] if arm["body"].get("e") == "block" else {"e": "block", "line": arm["line"], "end": arm["line"], "stmts": [{"s": "expr", "line": arm["line"], "semi": False, "e": arm["body"]}]}}
+        fake = {"body": synq.subst_lets(fake["body"])}    # `let kind = if self.match_char('=') { A } else { B }; make(kind)`
         for ev in synq.events(fake, enum="TokenKind"):
             if ev.kind != "op":
                 continue
